@@ -31,6 +31,14 @@ def productions(prog):
         body = by_name.get(name + '::{closure#2}')
         simple = strip_generics(name).split('::')[-1]
         if body is not None and body.argnorm and body.argnorm[0].startswith('&closure@'):
+            # #[packrat_parser] applied twice wraps the body twice
+            while True:
+                deeper = by_name.get(body.name + '::{closure#2}')
+                if deeper is not None and deeper.argnorm and deeper.argnorm[0].startswith('&closure@') and \
+                        ') -> Result<(LocatedSpan<&str, SpanInfo>, ' in deeper.header:
+                    body = deeper
+                else:
+                    break
             out[simple] = ('packrat', body, e)
         else:
             out[simple] = ('plain', e, e)
@@ -43,7 +51,15 @@ def productions(prog):
         e = by_name.get('utils::%s::{closure#0}' % h)
         if e is not None:
             out['utils::' + h] = ('terminal', e, e)
+    global SPAN_RETURNING
+    SPAN_RETURNING = set()
+    for simple, (kind, body, outer) in out.items():
+        if ') -> Result<(LocatedSpan<&str, SpanInfo>, LocatedSpan<&str, SpanInfo>)' in outer.header:
+            SPAN_RETURNING.add(simple)
     return out
+
+
+SPAN_RETURNING = set()
 
 
 def callees_text(prog, entry):
@@ -77,6 +93,7 @@ def analyze(name, info, summaries=None, nonnullable=None, dir_depth=1, ver_depth
         it.env['summaries'] = summaries or {}
         it.env['nonnullable'] = nonnullable
         it.env['self_name'] = name
+        it.env['span_returning'] = SPAN_RETURNING
         if extra_env:
             it.env.update(extra_env)
         p_in = z3.Int('p_in')
@@ -124,7 +141,7 @@ def analyze(name, info, summaries=None, nonnullable=None, dir_depth=1, ver_depth
             pass
         return fact
 
-    ex = Explorer(P, mdl, run, max_paths=max_paths, step_limit=3_000_000)
+    ex = Explorer(P, mdl, run, max_paths=max_paths, step_limit=600_000)
     ex.deadline = time.time() + time_cap
     res = ex.run()
     paths = []
